@@ -8,6 +8,7 @@
       {if e}…{elseif e}…{else}…{/if}      {foreach $x in e}…{ifempty}…{/foreach}
       {let $x: e /}                        {let $x}…{/let}
       {switch e}{case e}…{default}…{/switch}   (no text between `{switch}` and the first case)
+      {call .t}{param k: e /}…{/call}          {call .t /}          (no text between the params)
 
   (`e` a variable `$id` or an integer literal).  For every well-formed tree (`Blk`),
   `block_source_spec`:  `lexAll (srcOf b) false = .items (itemsOf b)` and
@@ -1145,6 +1146,10 @@ mutual
     | letc (x : Bytes) (b : Blk)
     /-- `{switch e}` cases `{/switch}` (no text between the cases) -/
     | switch (e : SExp) (cs : Cases)
+    /-- `{call .name}` `{param k: e /}`… `{/call}` (no text between the params) -/
+    | call (name : Bytes) (ps : List (Bytes × SExp))
+    /-- `{call .name /}` -/
+    | callSelf (name : Bytes)
   /-- a block: commands, each preceded by a (possibly empty) text run, and a trailing text run -/
   inductive Blk where
     | done (t : Bytes)
@@ -1177,6 +1182,8 @@ def kwIn : Bytes := [105, 110]
 def kSwitch : Bytes := [115, 119, 105, 116, 99, 104]
 def kCase : Bytes := [99, 97, 115, 101]
 def kDefault : Bytes := [100, 101, 102, 97, 117, 108, 116]
+def kCall : Bytes := [99, 97, 108, 108]
+def kParam : Bytes := [112, 97, 114, 97, 109]
 
 def printTag (id : Bytes) : Tag := .open [.dollar id] false
 def ifTag (e : SExp) : Tag := .open [.word kIf, .sp, e.elem] false
@@ -1189,6 +1196,19 @@ def letcTag (x : Bytes) : Tag := .open [.word kLet, .sp, .dollar x] false
 def switchTag (e : SExp) : Tag := .open [.word kSwitch, .sp, e.elem] false
 def caseTag (v : SExp) : Tag := .open [.word kCase, .sp, v.elem] false
 def defaultTag : Tag := .open [.word kDefault] false
+def callTag (name : Bytes) : Tag := .open [.word kCall, .sp, .dotIdent name] false
+def callSelfTag (name : Bytes) : Tag := .open [.word kCall, .sp, .dotIdent name, .sp] true
+def paramTag (k : Bytes) (e : SExp) : Tag := .open [.word kParam, .sp, .word k, .colon, .sp, e.elem, .sp] true
+
+/-- the segments of the params of a call: no text between them -/
+def segsParams : List (Bytes × SExp) → List Seg
+  | [] => []
+  | p :: r => ([], paramTag p.1 p.2) :: segsParams r
+
+/-- a param name: an identifier that is no keyword; its value: a simple expression -/
+def paramsOK : List (Bytes × SExp) → Prop
+  | [] => True
+  | p :: r => (wordOK p.1 ∧ wordType p.1 = .tIdent ∧ p.2.ok) ∧ paramsOK r
 
 def Blk.trail : Blk → Bytes
   | .done t => t
@@ -1217,6 +1237,8 @@ mutual
     | .letv x e => [(t, letvTag x e)]
     | .letc x b => (t, letcTag x) :: (initBlk b ++ [(b.trail, .close kLet)])
     | .switch e cs => (t, switchTag e) :: ([], cs.head) :: segsCases cs
+    | .call name ps => (t, callTag name) :: (segsParams ps ++ [([], .close kCall)])
+    | .callSelf name => [(t, callSelfTag name)]
   /-- the segments of a block without its trailing text -/
   def initBlk : Blk → List Seg
     | .done _ => []
@@ -1251,6 +1273,8 @@ mutual
     | .letv x e => idOK x ∧ e.ok
     | .letc x b => idOK x ∧ wfBlk b
     | .switch e cs => e.ok ∧ wfCases cs
+    | .call name ps => idOK name ∧ paramsOK ps
+    | .callSelf name => idOK name
   /-- well-formed: every text run is empty or `textOK`, identifiers and literals are well-formed -/
   def wfBlk : Blk → Prop
     | .done t => txtOK t
@@ -1310,6 +1334,27 @@ theorem caseTag_ok {e : SExp} (h : e.ok) : (caseTag e).ok :=
 
 theorem defaultTag_ok : defaultTag.ok := by decide
 theorem closeSwitch_ok : (Tag.close kSwitch).ok := by decide
+
+theorem callTag_ok {name : Bytes} (h : idOK name) : (callTag name).ok :=
+  ⟨by simp, by decide, fun _ => d32, trivial, nd, h, fun _ => d125, trivial⟩
+
+theorem callSelfTag_ok {name : Bytes} (h : idOK name) : (callSelfTag name).ok :=
+  ⟨by simp, by decide, fun _ => d32, trivial, nd, h, fun _ => d32, trivial, nd, trivial⟩
+
+theorem paramTag_ok {k : Bytes} {e : SExp} (hk : wordOK k) (h : e.ok) : (paramTag k e).ok :=
+  ⟨by simp, by decide, fun _ => d32, trivial, nd, hk, fun _ => d58, trivial, nd, trivial, nd, (SExp.elem_ok h).1,
+    fun _ => d32, trivial, nd, trivial⟩
+
+theorem closeCall_ok : (Tag.close kCall).ok := by decide
+
+theorem segsParams_ok : ∀ (ps : List (Bytes × SExp)), paramsOK ps → ∀ s ∈ segsParams ps, SegOK s
+  | [], _ => by intro s hs; simp [segsParams] at hs
+  | p :: r, h => by
+    intro s hs
+    simp only [segsParams] at hs
+    rcases List.mem_cons.mp hs with rfl | hs
+    · exact ⟨Or.inl rfl, paramTag_ok h.1.1 h.1.2.2⟩
+    · exact segsParams_ok r h.2 s hs
 
 theorem Cases.head_ok {cs : Cases} (h : wfCases cs) : cs.head.ok := by
   cases cs with
@@ -1376,6 +1421,15 @@ mutual
       · rcases List.mem_cons.mp hs with rfl | hs
         · exact ⟨Or.inl rfl, Cases.head_ok h.2⟩
         · exact segsCases_ok cs h.2 s hs
+    | t, .call name ps, ht, h => by
+      simp only [segsCmd]
+      intro s hs
+      rcases List.mem_cons.mp hs with rfl | hs
+      · exact ⟨ht, callTag_ok h.1⟩
+      · exact segOK_append (segsParams_ok ps h.2)
+          (by intro s hs; simp at hs; subst hs; exact ⟨Or.inl rfl, closeCall_ok⟩) s hs
+    | t, .callSelf name, ht, h => by
+      intro s hs; simp [segsCmd] at hs; subst hs; exact ⟨ht, callSelfTag_ok h⟩
   theorem initBlk_ok : ∀ (b : Blk), wfBlk b → ∀ s ∈ initBlk b, SegOK s
     | .done _, _ => by intro s hs; simp [initBlk] at hs
     | .cons t c r, h => by
@@ -1660,6 +1714,13 @@ def lenS (l : List Seg) : Nat := (srcSegs l).length
 /-- length of the source of a block -/
 def lenBlk (b : Blk) : Nat := lenS (initBlk b) + b.trail.length
 
+/-- the ParamValue nodes of a call; `qp` = where the first `{param` begins -/
+def paramNodes : Nat → List (Bytes × SExp) → NodeList
+  | _, [] => .nil
+  | qp, p :: r =>
+    .cons (.paramValue (qp + 1) p.1 (exprOf (qp + 9 + p.1.length + p.2.elem.src.length) p.2))
+      (paramNodes (qp + (paramTag p.1 p.2).src.length) r)
+
 mutual
   /-- the node of the command `c` whose preceding text `t` begins at `q` (its `{` is at `q + |t|`) -/
   def nodeCmd (q : Nat) (t : Bytes) : Cmd → Node
@@ -1690,6 +1751,9 @@ mutual
     | .switch e cs =>
       .switch (q + t.length + 7) (exprOf (q + t.length + 8 + e.elem.src.length) e)
         (caseNodes (q + t.length + (switchTag e).src.length) cs)
+    | .call name ps =>
+      .call (q + t.length + 5) (46 :: name) false none (paramNodes (q + t.length + (callTag name).src.length) ps)
+    | .callSelf name => .call (q + t.length + 5) (46 :: name) false none .nil
   /-- the nodes of a block that begins at `q` -/
   def nodesBlk (q : Nat) : Blk → NodeList
     | .done t => textNL t (q + t.length)
@@ -1732,7 +1796,7 @@ def nodesOf (b : Blk) : List Node := (nodesBlk 0 b).toList
 def untlOK (untl : List ItemType) : Prop :=
   untl.contains .tText = false ∧ untl.contains .tLeftDelim = false ∧ untl.contains .tDollarIdent = false ∧
   untl.contains .tIf = false ∧ untl.contains .tForeach = false ∧ untl.contains .tLet = false ∧
-  untl.contains .tSwitch = false
+  untl.contains .tSwitch = false ∧ untl.contains .tCall = false
 
 instance (untl : List ItemType) : Decidable (untlOK untl) := by unfold untlOK; infer_instance
 
@@ -1923,10 +1987,16 @@ theorem ifLoop_succ (ef fuel pos : Nat) (isElse : Bool) (conds : NodeList) :
   rw [ifLoop]
   rfl
 
+/-- the file-level parser state of the family: not inside a `{msg}`, no `{namespace}` seen -/
+def Clean (st : FState) : Prop := st.inmsg = false ∧ st.ns = []
+
+theorem Fr.clean {st st' : FState} (h : Fr st st') (hc : Clean st) : Clean st' :=
+  ⟨by rw [h.2.2]; exact hc.1, by rw [h.1]; exact hc.2⟩
+
 /-- `itemList(untl…)` on the tokens of the block `b` closed by the tag `g` -/
 def BlkSpec (ef : Nat) (b : Blk) : Prop :=
   ∀ (g : Tag) (untl : List ItemType) (q fuel : Nat) (lpos : Option Nat) (nodes : NodeList) (st : FState) (rest : List Item),
-    Stops untl g → untlOK untl → st.inmsg = false → st.p.peekCount ≤ 2 →
+    Stops untl g → untlOK untl → Clean st → st.p.peekCount ≤ 2 →
     stream st.p = itemsSegs q (closeBlk b g) ++ rest → 4 * (itemsSegs q (closeBlk b g)).length + 16 ≤ fuel →
     ∃ st', itemListLoop pf (ef + 4) fuel untl lpos nodes st =
         .ok (.list (lpos.getD (headPos (itemsSegs q (closeBlk b g)))) (nodes.append (nodesBlk q b)), st') ∧
@@ -1936,7 +2006,7 @@ def BlkSpec (ef : Nat) (b : Blk) : Prop :=
 /-- `beginTag` on the tokens of the command `c` behind its `{` -/
 def CmdSpec (ef : Nat) (c : Cmd) : Prop :=
   ∀ (q : Nat) (t : Bytes) (fuel : Nat) (st : FState) (rest : List Item),
-    st.inmsg = false → st.p.peekCount ≤ 2 →
+    Clean st → st.p.peekCount ≤ 2 →
     stream st.p = (itemsSegs q (segsCmd t c)).drop ((textItem t (q + t.length)).length + 1) ++ rest →
     4 * (itemsSegs q (segsCmd t c)).length + 8 ≤ fuel →
     ∃ st', beginTag pf (ef + 4) fuel st = .ok (some (nodeCmd q t c), st') ∧ stream st'.p = rest ∧
@@ -1946,7 +2016,7 @@ def CmdSpec (ef : Nat) (c : Cmd) : Prop :=
     keyword have been read by `itemList`) -/
 def TailSpec (ef : Nat) (tl : IfTail) : Prop :=
   ∀ (qt fuel pos : Nat) (conds : NodeList) (isElse : Bool) (st : FState) (rest : List Item),
-    (isElse = false ∨ tl = .fi) → st.inmsg = false → st.p.peekCount = 0 →
+    (isElse = false ∨ tl = .fi) → Clean st → st.p.peekCount = 0 →
     top st.p = (tl.head.items qt).getD 1 Item.zero →
     stream st.p = (tl.head.items qt).drop 2 ++ (itemsSegs (qt + tl.head.src.length) (segsTail tl) ++ rest) →
     4 * ((tl.head.items qt).length + (itemsSegs (qt + tl.head.src.length) (segsTail tl)).length) + 16 ≤ fuel →
@@ -2013,7 +2083,7 @@ theorem blk_done (ef : Nat) (t : Bytes) : BlkSpec pf ef (.done t) := by
 /-- the first tokens of a command: `{` and a token that is in no end-token set -/
 theorem segsCmd_items (q : Nat) (t : Bytes) (c : Cmd) :
     ∃ k s0, itemsSegs q (segsCmd t c) = textItem t (q + t.length) ++ ⟨.tLeftDelim, q + t.length + 1, [123]⟩ :: k :: s0 ∧
-      (k.typ = .tDollarIdent ∨ k.typ = .tIf ∨ k.typ = .tForeach ∨ k.typ = .tLet ∨ k.typ = .tSwitch) := by
+      (k.typ = .tDollarIdent ∨ k.typ = .tIf ∨ k.typ = .tForeach ∨ k.typ = .tLet ∨ k.typ = .tSwitch ∨ k.typ = .tCall) := by
   cases c with
   | print id =>
     have e : itemsSegs q (segsCmd t (.print id)) = textItem t (q + t.length) ++
@@ -2056,7 +2126,20 @@ theorem segsCmd_items (q : Nat) (t : Bytes) (c : Cmd) :
         ((switchTag e).items (q + t.length) ++ itemsSegs (q + t.length + (switchTag e).src.length) (([], cs.head) :: segsCases cs)) := by
       simp only [segsCmd, itemsSegs, List.append_assoc]
     rw [e']
-    exact ⟨_, _, rfl, Or.inr (Or.inr (Or.inr (Or.inr (by decide : wordType kSwitch = .tSwitch))))⟩
+    exact ⟨_, _, rfl, Or.inr (Or.inr (Or.inr (Or.inr (Or.inl (by decide : wordType kSwitch = .tSwitch)))))⟩
+  | call name ps =>
+    have e' : itemsSegs q (segsCmd t (.call name ps)) = textItem t (q + t.length) ++
+        ((callTag name).items (q + t.length) ++ itemsSegs (q + t.length + (callTag name).src.length)
+          (segsParams ps ++ [([], .close kCall)])) := by
+      simp only [segsCmd, itemsSegs, List.append_assoc]
+    rw [e']
+    exact ⟨_, _, rfl, Or.inr (Or.inr (Or.inr (Or.inr (Or.inr (by decide : wordType kCall = .tCall)))))⟩
+  | callSelf name =>
+    have e' : itemsSegs q (segsCmd t (.callSelf name)) = textItem t (q + t.length) ++
+        ((callSelfTag name).items (q + t.length) ++ itemsSegs (q + t.length + (callSelfTag name).src.length) []) := by
+      simp only [segsCmd, itemsSegs, List.append_assoc]
+    rw [e']
+    exact ⟨_, _, rfl, Or.inr (Or.inr (Or.inr (Or.inr (Or.inr (by decide : wordType kCall = .tCall)))))⟩
 
 theorem blk_cons (ef : Nat) (t : Bytes) (c : Cmd) (r : Blk) (hc : CmdSpec pf ef c) (hr : BlkSpec pf ef r) :
     BlkSpec pf ef (.cons t c r) := by
@@ -2066,12 +2149,13 @@ theorem blk_cons (ef : Nat) (t : Bytes) (c : Cmd) (r : Blk) (hc : CmdSpec pf ef 
     simp only [closeBlk, initBlk, Blk.trail, List.append_assoc, itemsSegs_append, lenS]
   obtain ⟨k, s0, hcs, hk⟩ := segsCmd_items q t c
   have hku : untl.contains k.typ = false := by
-    rcases hk with h | h | h | h | h <;> rw [h]
+    rcases hk with h | h | h | h | h | h <;> rw [h]
     · exact hu.2.2.1
     · exact hu.2.2.2.1
     · exact hu.2.2.2.2.1
     · exact hu.2.2.2.2.2.1
-    · exact hu.2.2.2.2.2.2
+    · exact hu.2.2.2.2.2.2.1
+    · exact hu.2.2.2.2.2.2.2
   rw [hcl] at hs hf ⊢
   have hlc : (itemsSegs q (segsCmd t c)).length = (textItem t (q + t.length)).length + 2 + s0.length := by
     rw [hcs]; simp; omega
@@ -2087,14 +2171,14 @@ theorem blk_cons (ef : Nat) (t : Bytes) (c : Cmd) (r : Blk) (hc : CmdSpec pf ef 
     (by
       intro st2 hs2 hp2 hfr
       have := hc q t (f + 1) st2 (itemsSegs (q + lenS (segsCmd t c)) (closeBlk r g) ++ rest)
-        (by rw [(hfr1.trans hfr).2.2]; exact hin) (by omega)
+        (Fr.clean (hfr1.trans hfr) hin) (by omega)
         (by rw [hcs, drop_len_succ, hs2]; simp)
         (by simp only [List.length_append] at hf; omega)
       exact this)
   obtain ⟨st3, hl3, hs3, ht3, hfr3⟩ := hr g untl (q + lenS (segsCmd t c)) (f + 2)
     (some (lpos1.getD (q + t.length + 1)))
     ((nodes.append (textNL t (q + t.length))).append (.cons (nodeCmd q t c) .nil)) st2 rest hst hu
-    (by rw [(hfr1.trans hfr2).2.2]; exact hin) hp2 hs2 (by simp only [List.length_append] at hf; omega)
+    (Fr.clean (hfr1.trans hfr2) hin) hp2 hs2 (by simp only [List.length_append] at hf; omega)
   have hlen : lenBlk (.cons t c r) = lenS (segsCmd t c) + lenBlk r := by
     simp [lenBlk, initBlk, Blk.trail, lenS, srcSegs_append]; omega
   refine ⟨st3, ?_, by rw [hlen, ← Nat.add_assoc]; exact hs3, by rw [hlen, ← Nat.add_assoc]; exact ht3,
@@ -2115,6 +2199,8 @@ theorem items_sp (q : Nat) : Elem.sp.items q = [] := rfl
 theorem items_word (q : Nat) (w : Bytes) : (Elem.word w).items q = [⟨wordType w, q + w.length, w⟩] := rfl
 theorem items_dollar (q : Nat) (id : Bytes) : (Elem.dollar id).items q = [⟨.tDollarIdent, q + 1 + id.length, 36 :: id⟩] := rfl
 theorem items_colon (q : Nat) : Elem.colon.items q = [⟨.tColon, q + 1, [58]⟩] := rfl
+theorem items_dotIdent (q : Nat) (id : Bytes) : (Elem.dotIdent id).items q = [⟨.tDotIdent, q + 1 + id.length, 46 :: id⟩] := rfl
+theorem src_dotIdent (id : Bytes) : (Elem.dotIdent id).src = 46 :: id := rfl
 theorem src_sp : Elem.sp.src = [32] := rfl
 theorem src_word (w : Bytes) : (Elem.word w).src = w := rfl
 theorem src_dollar (id : Bytes) : (Elem.dollar id).src = 36 :: id := rfl
@@ -2129,8 +2215,8 @@ theorem len_kwIn : kwIn.length = 2 := rfl
 
 /-- unfold the items / the source of a concrete tag -/
 macro "tag_unfold" : tactic => `(tactic|
-  simp only [Tag.items, itemsEs, items_sp, items_word, items_dollar, items_colon, elem_items, srcEs, src_sp, src_word,
-    src_dollar, src_colon, Tag.src, closeBytes, List.length_cons, List.length_nil, List.length_append, List.cons_append,
+  simp only [Tag.items, itemsEs, items_sp, items_word, items_dollar, items_colon, items_dotIdent, elem_items, srcEs, src_sp,
+    src_word, src_dollar, src_colon, src_dotIdent, Tag.src, closeBytes, List.length_cons, List.length_nil, List.length_append, List.cons_append,
     List.nil_append, List.append_nil, Bool.false_eq_true, if_false, if_true, len_kIf, len_kElseif, len_kElse, len_kForeach,
     len_kIfempty, len_kLet, len_kwIn])
 
@@ -2253,6 +2339,44 @@ theorem closeSwitch_items (Q : Nat) :
   simp only [len_kSwitch]
   arith_items
 
+theorem len_kCall : kCall.length = 4 := rfl
+theorem len_kParam : kParam.length = 5 := rfl
+
+theorem callTag_items (name : Bytes) (Q : Nat) :
+    (callTag name).items Q = [⟨.tLeftDelim, Q + 1, [123]⟩, ⟨.tCall, Q + 5, kCall⟩,
+      ⟨.tDotIdent, Q + 7 + name.length, 46 :: name⟩, ⟨.tRightDelim, Q + 8 + name.length, [125]⟩] ∧
+    (callTag name).src.length = 8 + name.length := by
+  unfold callTag
+  tag_unfold
+  simp only [len_kCall]
+  arith_items
+
+theorem callSelfTag_items (name : Bytes) (Q : Nat) :
+    (callSelfTag name).items Q = [⟨.tLeftDelim, Q + 1, [123]⟩, ⟨.tCall, Q + 5, kCall⟩,
+      ⟨.tDotIdent, Q + 7 + name.length, 46 :: name⟩, ⟨.tRightDelimEnd, Q + 10 + name.length, [47, 125]⟩] ∧
+    (callSelfTag name).src.length = 10 + name.length := by
+  unfold callSelfTag
+  tag_unfold
+  simp only [len_kCall]
+  arith_items
+
+theorem paramTag_items (k : Bytes) (e : SExp) (P : Nat) :
+    (paramTag k e).items P = [⟨.tLeftDelim, P + 1, [123]⟩, ⟨.tParam, P + 6, kParam⟩, ⟨wordType k, P + 7 + k.length, k⟩,
+      ⟨.tColon, P + 8 + k.length, [58]⟩, exprItem (P + 9 + k.length + e.elem.src.length) e,
+      ⟨.tRightDelimEnd, P + 12 + k.length + e.elem.src.length, [47, 125]⟩] ∧
+    (paramTag k e).src.length = 12 + k.length + e.elem.src.length := by
+  unfold paramTag
+  tag_unfold
+  simp only [len_kParam]
+  arith_items
+
+theorem closeCall_items (Q : Nat) :
+    (Tag.close kCall).items Q = [⟨.tLeftDelim, Q + 1, [123]⟩, ⟨.tCallEnd, Q + 6, 47 :: kCall⟩, ⟨.tRightDelim, Q + 7, [125]⟩] ∧
+      (Tag.close kCall).src.length = 7 := by
+  tag_unfold
+  simp only [len_kCall]
+  arith_items
+
 /-! ### the commands -/
 
 theorem get_run (st : FState) : (get : FP FState) st = .ok (st, st) := rfl
@@ -2368,7 +2492,7 @@ theorem cmd_letc (ef : Nat) (x : Bytes) (b : Blk) (hb : BlkSpec pf ef b) : CmdSp
   obtain ⟨st5, hn5, hs5, ht5, hp5, hfr5⟩ := fnext_stream' (st := st4) hp4 hs4
   have hfr05 := (((hfr1.trans hfr2).trans hfr3).trans hfr4).trans hfr5
   obtain ⟨st6, hl6, hs6, ht6, hfr6⟩ := hb (.close kLet) [.tLetEnd] (q + t.length + (letcTag x).src.length) (f + 1) none .nil
-    st5 rest (by show List.contains _ (closeType kLet) = true; decide) (by decide) (by rw [hfr05.2.2]; exact hin) (by omega)
+    st5 rest (by show List.contains _ (closeType kLet) = true; decide) (by decide) (Fr.clean hfr05 hin) (by omega)
     (by simpa using hs5) (by simp only [List.length_append, List.length_cons] at hf; omega)
   rw [(closeLet_items _).1] at hs6 ht6
   simp only [List.drop, List.cons_append, List.nil_append, List.getD_cons_succ, List.getD_cons_zero] at hs6 ht6
@@ -2420,7 +2544,7 @@ theorem cmd_foreach (ef : Nat) (x : Bytes) (e : SExp) (b : Blk) (he : e.ok) (hb 
   have hfr05 := (((hfr1.trans hfr2).trans hfr3).trans hfr4).trans hfr5
   obtain ⟨st6, hl6, hs6, ht6, hfr6⟩ := hb (.close kForeach) [.tIfempty, .tForeachEnd, .tForEnd]
     (q + t.length + (foreachTag x e).src.length) (f + 1) none .nil st5 rest
-    (by show List.contains _ (closeType kForeach) = true; decide) (by decide) (by rw [hfr05.2.2]; exact hin) (by omega)
+    (by show List.contains _ (closeType kForeach) = true; decide) (by decide) (Fr.clean hfr05 hin) (by omega)
     hs5 (by simp only [List.length_append, List.length_cons] at hf; omega)
   rw [(closeForeach_items _).1] at hs6 ht6
   simp only [List.drop, List.cons_append, List.nil_append, List.getD_cons_succ, List.getD_cons_zero] at hs6 ht6
@@ -2435,7 +2559,7 @@ theorem cmd_foreach (ef : Nat) (x : Bytes) (e : SExp) (b : Blk) (he : e.ok) (hb 
   unfold beginTag
   rw [fbind_run, hn1]
   simp only
-  rw [fbind_run, notmsg_run _ _ (by rw [hfr1.2.2]; exact hin)]
+  rw [fbind_run, notmsg_run _ _ (Fr.clean hfr1 hin).1]
   simp only
   rw [fbind_run]
   have hpl : parseFor pf (ef + 4) (f + 2) ⟨.tForeach, q + t.length + 8, kForeach⟩ st1 =
@@ -2490,7 +2614,7 @@ theorem cmd_foreachE (ef : Nat) (x : Bytes) (e : SExp) (b ie : Blk) (he : e.ok) 
   obtain ⟨st6, hl6, hs6, ht6, hfr6⟩ := hb ifemptyTag [.tIfempty, .tForeachEnd, .tForEnd]
     (q + t.length + (foreachTag x e).src.length) (f + 1) none .nil st5
     (itemsSegs (q + t.length + (foreachTag x e).src.length + lenBlk b + ifemptyTag.src.length) (closeBlk ie (.close kForeach)) ++ rest)
-    (by show List.contains _ (wordType kIfempty) = true; decide) (by decide) (by rw [hfr05.2.2]; exact hin) (by omega)
+    (by show List.contains _ (wordType kIfempty) = true; decide) (by decide) (Fr.clean hfr05 hin) (by omega)
     (by rw [hs5]; simp) (by simp only [List.length_append, List.length_cons] at hf; omega)
   rw [(ifemptyTag_items _).1] at hs6 ht6
   simp only [List.drop, List.cons_append, List.nil_append, List.getD_cons_succ, List.getD_cons_zero] at hs6 ht6
@@ -2503,7 +2627,7 @@ theorem cmd_foreachE (ef : Nat) (x : Bytes) (e : SExp) (b ie : Blk) (he : e.ok) 
   have hfr09 := (((hfr05.trans hfr6).trans hfr7).trans hfr8).trans hfr9
   obtain ⟨st10, hl10, hs10, ht10, hfr10⟩ := hie (.close kForeach) [.tForeachEnd, .tForEnd]
     (q + t.length + (foreachTag x e).src.length + lenBlk b + ifemptyTag.src.length) (f + 1) none .nil st9 rest
-    (by show List.contains _ (closeType kForeach) = true; decide) (by decide) (by rw [hfr09.2.2]; exact hin) (by omega)
+    (by show List.contains _ (closeType kForeach) = true; decide) (by decide) (Fr.clean hfr09 hin) (by omega)
     hs9 (by simp only [List.length_append, List.length_cons] at hf; omega)
   rw [(closeForeach_items _).1] at hs10 ht10
   simp only [List.drop, List.cons_append, List.nil_append, List.getD_cons_succ, List.getD_cons_zero] at hs10 ht10
@@ -2514,7 +2638,7 @@ theorem cmd_foreachE (ef : Nat) (x : Bytes) (e : SExp) (b ie : Blk) (he : e.ok) 
   unfold beginTag
   rw [fbind_run, hn1]
   simp only
-  rw [fbind_run, notmsg_run _ _ (by rw [hfr1.2.2]; exact hin)]
+  rw [fbind_run, notmsg_run _ _ (Fr.clean hfr1 hin).1]
   simp only
   rw [fbind_run]
   have hpl : parseFor pf (ef + 4) (f + 2) ⟨.tForeach, q + t.length + 8, kForeach⟩ st1 =
@@ -2566,11 +2690,11 @@ theorem tail_els (ef : Nat) (b : Blk) (hb : BlkSpec pf ef b) : TailSpec pf ef (.
   obtain ⟨st3, he3, hs3, ht3, hp3, hfr3⟩ := fexpect_stream' (st := st2) (t := .tRightDelim) (by omega) hs2 rfl
   have hfr03 := (hfr1.trans hfr2).trans hfr3
   obtain ⟨st4, hl4, hs4, ht4, hfr4⟩ := hb (.close kIf) [.tElseif, .tElse, .tIfEnd] (qt + 6) f none .nil st3 rest
-    (by show List.contains _ (closeType kIf) = true; decide) (by decide) (by rw [hfr03.2.2]; exact hin) (by omega)
+    (by show List.contains _ (closeType kIf) = true; decide) (by decide) (Fr.clean hfr03 hin) (by omega)
     (by rw [hs3]; rfl) (by simp only [List.length_cons, closeBlk] at hf ⊢; omega)
   obtain ⟨st5, hc5, hs5, hp5, hfr5⟩ := tail_fi pf ef (qt + 6 + lenBlk b) f pos
     (conds.append (.cons (.ifCond pos none (.list (headPos (itemsSegs (qt + 6) (closeBlk b (.close kIf))))
-      (nodesBlk (qt + 6) b))) .nil)) true st4 rest (Or.inr rfl) (by rw [(hfr03.trans hfr4).2.2]; exact hin)
+      (nodesBlk (qt + 6) b))) .nil)) true st4 rest (Or.inr rfl) (Fr.clean (hfr03.trans hfr4) hin)
     (ht4 (by simp)).2 (ht4 (by simp)).1 (by simpa [IfTail.head, segsTail, itemsSegs] using hs4)
     (by
       have hcl := closeBlk_len (qt + 6) b (.close kIf)
@@ -2626,7 +2750,7 @@ theorem tail_elif (ef : Nat) (e : SExp) (b : Blk) (r : IfTail) (he : e.ok) (hr :
   have hne : r.head ≠ .eof := by cases r <;> simp [IfTail.head, elseTag, elseifTag]
   obtain ⟨st5, hl5, hs5, ht5, hfr5⟩ := hb r.head [.tElseif, .tElse, .tIfEnd] (qt + (9 + e.elem.src.length)) f none .nil st4
     (itemsSegs (qt + (9 + e.elem.src.length) + lenBlk b + r.head.src.length) (segsTail r) ++ rest)
-    hstop (by decide) (by rw [hfr04.2.2]; exact hin) (by omega)
+    hstop (by decide) (Fr.clean hfr04 hin) (by omega)
     (by rw [hs4]; simp) (by omega)
   have hlen2 : 2 ≤ (r.head.items (qt + (9 + e.elem.src.length) + lenBlk b)).length := by
     cases r with
@@ -2636,7 +2760,7 @@ theorem tail_elif (ef : Nat) (e : SExp) (b : Blk) (r : IfTail) (he : e.ok) (hr :
   obtain ⟨st6, hc6, hs6, hp6, hfr6⟩ := hrs (qt + (9 + e.elem.src.length) + lenBlk b) f pos
     (conds.append (.cons (.ifCond pos (some (exprOf (qt + 8 + e.elem.src.length) e))
       (.list (headPos (itemsSegs (qt + (9 + e.elem.src.length)) (closeBlk b r.head))) (nodesBlk (qt + (9 + e.elem.src.length)) b))) .nil))
-    false st5 rest (Or.inl rfl) (by rw [(hfr04.trans hfr5).2.2]; exact hin) (ht5 hne).2 (ht5 hne).1
+    false st5 rest (Or.inl rfl) (Fr.clean (hfr04.trans hfr5) hin) (ht5 hne).2 (ht5 hne).1
     (by rw [hs5])
     (by
       have hcl := closeBlk_len (qt + (9 + e.elem.src.length)) b r.head
@@ -2686,13 +2810,13 @@ theorem cmd_if (ef : Nat) (e : SExp) (b : Blk) (tl : IfTail) (he : e.ok) (hb : B
   obtain ⟨st4, hl4, hs4, ht4, hfr4⟩ := hb tl.head [.tElseif, .tElse, .tIfEnd] (q + t.length + (ifTag e).src.length) (f + 1)
     none .nil st3
     (itemsSegs (q + t.length + (ifTag e).src.length + lenBlk b + tl.head.src.length) (segsTail tl) ++ rest)
-    hstop (by decide) (by rw [hfr03.2.2]; exact hin) (by omega)
+    hstop (by decide) (Fr.clean hfr03 hin) (by omega)
     (by rw [hs3]; simp) (by simp only [List.length_cons, List.length_append] at hf ⊢; omega)
   obtain ⟨st5, hc5, hs5, hp5, hfr5⟩ := htl (q + t.length + (ifTag e).src.length + lenBlk b) (f + 1) (q + t.length + 3)
     (.cons (.ifCond (q + t.length + 3) (some (exprOf (q + t.length + 4 + e.elem.src.length) e))
       (.list (headPos (itemsSegs (q + t.length + (ifTag e).src.length) (closeBlk b tl.head)))
         (nodesBlk (q + t.length + (ifTag e).src.length) b))) .nil)
-    false st4 rest (Or.inl rfl) (by rw [(hfr03.trans hfr4).2.2]; exact hin) (ht4 hne).2 (ht4 hne).1
+    false st4 rest (Or.inl rfl) (Fr.clean (hfr03.trans hfr4) hin) (ht4 hne).2 (ht4 hne).1
     (by rw [hs4])
     (by
       have hcl := closeBlk_len (q + t.length + (ifTag e).src.length) b tl.head
@@ -2703,7 +2827,7 @@ theorem cmd_if (ef : Nat) (e : SExp) (b : Blk) (tl : IfTail) (he : e.ok) (hb : B
   unfold beginTag
   rw [fbind_run, hn1]
   simp only
-  rw [fbind_run, notmsg_run _ _ (by rw [hfr1.2.2]; exact hin)]
+  rw [fbind_run, notmsg_run _ _ (Fr.clean hfr1 hin).1]
   simp only
   rw [fbind_run]
   have hpl : ifLoop pf (ef + 4) (f + 2) (q + t.length + 3) false .nil st1 = .ok (nodeCmd q t (.ifc e b tl), st5) := by
@@ -2728,7 +2852,7 @@ theorem cmd_if (ef : Nat) (e : SExp) (b : Blk) (tl : IfTail) (he : e.ok) (hb : B
 /-- `parseSwitch`'s loop on the tokens of the cases `cs`, the `{` of their first tag already read -/
 def CasesSpec (ef : Nat) (cs : Cases) : Prop :=
   ∀ (qc fuel pos : Nat) (value : Expr) (cases : NodeList) (st : FState) (rest : List Item),
-    st.inmsg = false → st.p.peekCount ≤ 1 →
+    Clean st → st.p.peekCount ≤ 1 →
     stream st.p = (cs.head.items qc).drop 1 ++ (itemsSegs (qc + cs.head.src.length) (segsCases cs) ++ rest) →
     4 * ((cs.head.items qc).length + (itemsSegs (qc + cs.head.src.length) (segsCases cs)).length) + 16 ≤ fuel →
     ∃ st', switchLoop pf (ef + 4) fuel pos value .tSwitchEnd cases st =
@@ -2784,7 +2908,7 @@ theorem head_items_two (r : Cases) (q : Nat) :
 
 /-- what `caseLoop` and the next round of `switchLoop` need behind a case body -/
 theorem after_body (ef : Nat) (b : Blk) (r : Cases) (hb : BlkSpec pf ef b) (hrs : CasesSpec pf ef r) (qb f pos : Nat)
-    (value : Expr) (st : FState) (rest : List Item) (hin : st.inmsg = false)
+    (value : Expr) (st : FState) (rest : List Item) (hin : Clean st)
     (hpc : st.p.peekCount ≤ 2)
     (hs : stream st.p = itemsSegs qb (closeBlk b r.head) ++ (itemsSegs (qb + lenBlk b + r.head.src.length) (segsCases r) ++ rest))
     (hf : 4 * ((itemsSegs qb (closeBlk b r.head)).length +
@@ -2808,7 +2932,7 @@ theorem after_body (ef : Nat) (b : Blk) (r : Cases) (hb : BlkSpec pf ef b) (hrs 
   · intro cases'
     have hcl := closeBlk_len qb b r.head
     obtain ⟨st3, hl3, hs3, hp3, hfr3⟩ := hrs (qb + lenBlk b) (f + 1) pos value cases' st2 rest
-      (by rw [(hfr1.trans hfr2).2.2]; exact hin) (by have := (ht1 hne).2; omega) hs2' (by omega)
+      (Fr.clean (hfr1.trans hfr2) hin) (by have := (ht1 hne).2; omega) hs2' (by omega)
     exact ⟨st3, hl3, hs3, hp3, (hfr1.trans hfr2).trans hfr3⟩
 
 theorem caseLoop_succ (ef fuel : Nat) (token : Item) (values : List Expr) :
@@ -2846,7 +2970,7 @@ theorem cases_case (ef : Nat) (v : SExp) (b : Blk) (r : Cases) (hv : v.ok) (hb :
   obtain ⟨st3, hn3, hs3, ht3, hp3, hfr3⟩ := fnext_stream' (st := st2) (by omega) hs2
   have hfr03 := (hfr1.trans hfr2).trans hfr3
   obtain ⟨st4, st5, hl4, hb5, hrest⟩ := after_body pf ef b r hb hrs (qc + (7 + v.elem.src.length)) f pos value
-    st3 rest (by rw [hfr03.2.2]; exact hin) (by omega) (by rw [hs3]; simp) (by omega)
+    st3 rest (Fr.clean hfr03 hin) (by omega) (by rw [hs3]; simp) (by omega)
   obtain ⟨st6, hl6, hs6, hp6, hfr6⟩ := hrest (cases.append (.cons (.switchCase (qc + 5) [exprOf (qc + 6 + v.elem.src.length) v]
     (.list (headPos (itemsSegs (qc + (7 + v.elem.src.length)) (closeBlk b r.head))) (nodesBlk (qc + (7 + v.elem.src.length)) b))) .nil))
   refine ⟨st6, ?_, hs6, hp6, hfr03.trans hfr6⟩
@@ -2895,7 +3019,7 @@ theorem cases_dflt (ef : Nat) (b : Blk) (r : Cases) (hb : BlkSpec pf ef b) (hrs 
   obtain ⟨st3, hn3, hs3, ht3, hp3, hfr3⟩ := fnext_stream' (st := st1) (by omega) hs1
   have hfr03 := hfr1.trans hfr3
   obtain ⟨st4, st5, hl4, hb5, hrest⟩ := after_body pf ef b r hb hrs (qc + 9) f pos value
-    st3 rest (by rw [hfr03.2.2]; exact hin) (by omega) (by rw [hs3]; simp) (by omega)
+    st3 rest (Fr.clean hfr03 hin) (by omega) (by rw [hs3]; simp) (by omega)
   obtain ⟨st6, hl6, hs6, hp6, hfr6⟩ := hrest (cases.append (.cons (.switchCase (qc + 8) []
     (.list (headPos (itemsSegs (qc + 9) (closeBlk b r.head))) (nodesBlk (qc + 9) b))) .nil))
   refine ⟨st6, ?_, hs6, hp6, hfr03.trans hfr6⟩
@@ -2949,14 +3073,14 @@ theorem cmd_switch (ef : Nat) (e : SExp) (cs : Cases) (he : e.ok) (hcs : CasesSp
   obtain ⟨st4, hn4, hs4, ht4, hp4, hfr4⟩ := fnext_stream' (st := st3) (by omega) (by simpa using hs3)
   have hfr04 := ((hfr1.trans hfr2).trans hfr3).trans hfr4
   obtain ⟨st5, hl5, hs5, hp5, hfr5⟩ := hcs (q + t.length + (switchTag e).src.length) (f + 1) (q + t.length + 7)
-    (exprOf (q + t.length + 8 + e.elem.src.length) e) .nil st4 rest (by rw [hfr04.2.2]; exact hin) (by omega)
+    (exprOf (q + t.length + 8 + e.elem.src.length) e) .nil st4 rest (Fr.clean hfr04 hin) (by omega)
     (by rw [hs4, hhd]; simp) (by omega)
   refine ⟨st5, ?_, hs5, hp5, hfr04.trans hfr5⟩
   show beginTag pf (ef + 4) ((f + 3) + 1) st = _
   unfold beginTag
   rw [fbind_run, hn1]
   simp only
-  rw [fbind_run, notmsg_run _ _ (by rw [hfr1.2.2]; exact hin)]
+  rw [fbind_run, notmsg_run _ _ (Fr.clean hfr1 hin).1]
   simp only
   rw [fbind_run]
   have hps : parseSwitch pf (ef + 4) (f + 3) ⟨.tSwitch, q + t.length + 7, kSwitch⟩ .tSwitchEnd st1 =
@@ -2975,6 +3099,229 @@ theorem cmd_switch (ef : Nat) (e : SExp) (cs : Cases) (he : e.ok) (hcs : CasesSp
   rw [hps]
   rfl
 
+
+/-! ### `{call}` -/
+
+/-- `parseAttrs` before `}` / `/}`: no attributes -/
+theorem parseAttrs_term (allowed : List Bytes) (f : Nat) (rd : Item) (s : List Item) (st : FState) (hpc : st.p.peekCount ≤ 2)
+    (hs : stream st.p = rd :: s) (hrd : isTerm rd.typ) :
+    ∃ st', parseAttrs allowed (f + 1) [] st = .ok ([], st') ∧ stream st'.p = rd :: s ∧ st'.p.peekCount ≤ 2 ∧
+      (st.p.peekCount ≤ 1 → st'.p.peekCount ≤ 1) ∧ Fr st st' := by
+  obtain ⟨st1, hn1, hs1, ht1, hp1, hfr1⟩ := fnext_stream' hpc hs
+  obtain ⟨st2, hb2, hs2, hp2, hfr2⟩ := fbackup_stream' (st := st1) (by omega)
+  refine ⟨st2, ?_, by rw [hs2, ht1, hs1], by omega, fun _ => by omega, hfr1.trans hfr2⟩
+  unfold parseAttrs
+  rw [fbind_run, hn1]
+  rcases hrd with h | h
+  · simp only [h, show (ItemType.tRightDelim == ItemType.tIdent) = false by decide, Bool.false_eq_true, if_false,
+      beq_self_eq_true, Bool.true_or, if_true]
+    rw [fbind_run, hb2]; rfl
+  · simp only [h, show (ItemType.tRightDelimEnd == ItemType.tIdent) = false by decide, Bool.false_eq_true, if_false,
+      beq_self_eq_true, Bool.or_true, if_true]
+    rw [fbind_run, hb2]; rfl
+
+/-- `t.backup2(t1)` after two `next`s: both tokens are back on the stream -/
+theorem fbackup2_stream' {st : FState} (t1 : Item) (hpc : st.p.peekCount = 0) :
+    ∃ st', FileParser.backup2 t1 st = .ok ((), st') ∧ stream st'.p = t1 :: top st.p :: stream st.p ∧
+      st'.p.peekCount = 2 ∧ Fr st st' := by
+  refine ⟨{ st with p := { st.p with tok1 := t1, peekCount := 2 } }, rfl, ?_, rfl, rfl, rfl, rfl⟩
+  simp [stream, pending, top, hpc]
+
+/-- the head of a `{call .name …}` without attributes -/
+theorem parseCallHead_plain (f : Nat) (name : Bytes) (pos : Nat) (nxt : Item) (s : List Item) (st : FState)
+    (hcl : Clean st) (hpc : st.p.peekCount ≤ 2) (hs : stream st.p = ⟨.tDotIdent, pos, 46 :: name⟩ :: nxt :: s)
+    (hn : isTerm nxt.typ) :
+    ∃ st', parseCallHead pf (f + 1) st = .ok ((46 :: name, false, none), st') ∧ stream st'.p = nxt :: s ∧
+      st'.p.peekCount ≤ 1 ∧ Fr st st' := by
+  obtain ⟨st1, hn1, hs1, ht1, hp1, hfr1⟩ := fnext_stream' hpc hs
+  obtain ⟨st2, ha2, hs2, _, hp2, hfr2⟩ := parseAttrs_term [kName, kData] f nxt s st1 (by omega) hs1 hn
+  refine ⟨st2, ?_, hs2, hp2 (by omega), hfr1.trans hfr2⟩
+  unfold parseCallHead
+  rw [fbind_run, hn1]
+  simp only [beq_self_eq_true, if_true]
+  rw [fbind_run, fpure_run]
+  simp only
+  rw [fbind_run, ha2]
+  have hne : ((46 :: name : Bytes) == []) = false := by simp
+  simp only [hne, Bool.false_eq_true, if_false]
+  rw [fbind_run, get_run]
+  simp only [beq_self_eq_true, if_true]
+  have hns : st2.ns = [] := (Fr.clean (hfr1.trans hfr2) hcl).2
+  rw [fbind_run, fpure_run]
+  simp only [hns, List.nil_append, lookup, List.find?_nil, Option.map_none]
+  rfl
+
+theorem cmd_callSelf (ef : Nat) (name : Bytes) : CmdSpec pf ef (.callSelf name) := by
+  intro q t fuel st rest hin hpc hs hf
+  have hit : itemsSegs q (segsCmd t (.callSelf name)) = textItem t (q + t.length) ++ (callSelfTag name).items (q + t.length) := by
+    simp only [segsCmd, itemsSegs, List.append_nil]
+  rw [hit, (callSelfTag_items name (q + t.length)).1] at hs hf
+  rw [drop_len_succ] at hs
+  obtain ⟨f, rfl⟩ : ∃ f, fuel = f + 3 := ⟨fuel - 3, by omega⟩
+  obtain ⟨st1, hn1, hs1, ht1, hp1, hfr1⟩ := fnext_stream' hpc (by simpa using hs)
+  obtain ⟨st2, hh2, hs2, hp2, hfr2⟩ := parseCallHead_plain pf f name _ _ _ st1 (Fr.clean hfr1 hin) (by omega) hs1 (Or.inr rfl)
+  obtain ⟨st3, hn3, hs3, ht3, hp3, hfr3⟩ := fnext_stream' (st := st2) (by omega) hs2
+  refine ⟨st3, ?_, hs3, by omega, (hfr1.trans hfr2).trans hfr3⟩
+  show beginTag pf (ef + 4) ((f + 2) + 1) st = _
+  unfold beginTag
+  rw [fbind_run, hn1]
+  simp only
+  rw [fbind_run]
+  have hpc' : parseCall pf (ef + 4) (f + 2) ⟨.tCall, q + t.length + 5, kCall⟩ st1 =
+      .ok (nodeCmd q t (.callSelf name), st3) := by
+    show parseCall pf (ef + 4) ((f + 1) + 1) _ st1 = _
+    unfold parseCall
+    rw [fbind_run, hh2]
+    simp only
+    rw [fbind_run, hn3]
+    simp only [beq_self_eq_true, if_true]
+    rfl
+  rw [hpc']
+  rfl
+
+theorem nextNonComment_id (f : Nat) (x : Item) (s : List Item) (st : FState) (hpc : st.p.peekCount ≤ 2)
+    (hs : stream st.p = x :: s) (hx : x.typ ≠ .tComment) :
+    ∃ st', nextNonComment (f + 1) st = .ok (x, st') ∧ stream st'.p = s ∧ top st'.p = x ∧
+      st'.p.peekCount = st.p.peekCount - 1 ∧ Fr st st' := by
+  obtain ⟨st1, hn1, hs1, ht1, hp1, hfr1⟩ := fnext_stream' hpc hs
+  refine ⟨st1, ?_, hs1, ht1, hp1, hfr1⟩
+  unfold nextNonComment
+  rw [fbind_run, hn1]
+  have : (x.typ != ItemType.tComment) = true := by simpa using hx
+  simp only [this, if_true]
+  rfl
+
+theorem orphanLoop_id (ef f : Nat) (x : Item) (st : FState) (hx : x.typ ≠ .tText) :
+    orphanLoop pf ef (f + 1) x st = .ok (x, st) := by
+  unfold orphanLoop
+  have : (x.typ == ItemType.tText) = false := by simpa using hx
+  simp only [this, Bool.false_eq_true, if_false]
+  rfl
+
+theorem lenS_params_cons (p : Bytes × SExp) (r : List (Bytes × SExp)) :
+    lenS (segsParams (p :: r)) = (paramTag p.1 p.2).src.length + lenS (segsParams r) := by
+  simp [lenS, segsParams, srcSegs]
+
+/-- `parseCallParams` on the tokens of the params and the `{/call}` behind them -/
+theorem params_spec (ef : Nat) : ∀ (ps : List (Bytes × SExp)) (qp fuel : Nat) (params : NodeList) (st : FState)
+    (rest : List Item), paramsOK ps → Clean st → st.p.peekCount ≤ 2 →
+    stream st.p = itemsSegs qp (segsParams ps ++ [([], .close kCall)]) ++ rest →
+    4 * (itemsSegs qp (segsParams ps ++ [([], .close kCall)])).length + 8 ≤ fuel →
+    ∃ st', callParamsLoop pf (ef + 4) fuel params st = .ok (params.append (paramNodes qp ps), st') ∧
+      stream st'.p = (Tag.close kCall).items (qp + lenS (segsParams ps)) ++ rest ∧ st'.p.peekCount ≤ 2 ∧ Fr st st' := by
+  intro ps
+  induction ps with
+  | nil =>
+    intro qp fuel params st rest _ hin hpc hs hf
+    simp only [segsParams, List.nil_append, itemsSegs, textItem, List.length_nil, Nat.lt_irrefl, false_and, if_false,
+      Nat.add_zero, List.append_nil, (closeCall_items qp).1, List.cons_append, List.length_cons] at hs hf
+    obtain ⟨f, rfl⟩ : ∃ f, fuel = f + 2 := ⟨fuel - 2, by omega⟩
+    obtain ⟨st1, hn1, hs1, ht1, hp1, hfr1⟩ := nextNonComment_id f _ _ st hpc hs (by simp)
+    obtain ⟨st2, hn2, hs2, ht2, hp2, hfr2⟩ := fnext_stream' (st := st1) (by omega) hs1
+    obtain ⟨st3, hb3, hs3, hp3, hfr3⟩ := fbackup2_stream' (st := st2) ⟨.tLeftDelim, qp + 1, [123]⟩ (by omega)
+    refine ⟨st3, ?_, ?_, by omega, (hfr1.trans hfr2).trans hfr3⟩
+    · show callParamsLoop pf (ef + 4) ((f + 1) + 1) params st = _
+      unfold callParamsLoop
+      rw [fbind_run, hn1]
+      simp only
+      rw [fbind_run, orphanLoop_id pf (ef + 4) f _ st1 (by simp)]
+      simp only [show (ItemType.tLeftDelim != ItemType.tLeftDelim) = false by decide, Bool.false_eq_true, if_false]
+      rw [fbind_run, hn2]
+      simp only [beq_self_eq_true, if_true]
+      rw [fbind_run, hb3]
+      simp only [paramNodes, nl_append_nil]
+      rfl
+    · rw [hs3, ht2, hs2]
+      simp [lenS, segsParams, srcSegs, (closeCall_items qp).1]
+  | cons p r ih =>
+    intro qp fuel params st rest hok hin hpc hs hf
+    have hsplit : itemsSegs qp (segsParams (p :: r) ++ [([], .close kCall)]) =
+        (paramTag p.1 p.2).items qp ++ itemsSegs (qp + (paramTag p.1 p.2).src.length) (segsParams r ++ [([], .close kCall)]) := by
+      simp only [segsParams, List.cons_append, itemsSegs, textItem, List.length_nil, Nat.lt_irrefl, false_and, if_false,
+        Nat.add_zero, List.nil_append]
+    rw [hsplit, (paramTag_items p.1 p.2 qp).1] at hs hf
+    simp only [List.cons_append, List.nil_append, List.length_cons, List.length_append] at hs hf
+    obtain ⟨f, rfl⟩ : ∃ f, fuel = f + 2 := ⟨fuel - 2, by omega⟩
+    obtain ⟨st1, hn1, hs1, ht1, hp1, hfr1⟩ := nextNonComment_id f _ _ st hpc hs (by simp)
+    obtain ⟨st2, hn2, hs2, ht2, hp2, hfr2⟩ := fnext_stream' (st := st1) (by omega) hs1
+    obtain ⟨st3, he3, hs3, ht3, hp3, hfr3⟩ := fexpect_stream' (st := st2) (t := .tIdent) (by omega) hs2 hok.1.2.1
+    obtain ⟨st4, hn4, hs4, ht4, hp4, hfr4⟩ := fnext_stream' (st := st3) (by omega) hs3
+    obtain ⟨st5, hx5, hs5, hp5, hfr5⟩ := parseExpr0_simple pf ef p.2 _ _ _ st4 (by omega) hs4 hok.1.2.2 (Or.inr rfl)
+    obtain ⟨st6, he6, hs6, ht6, hp6, hfr6⟩ := fexpect_stream' (st := st5) (t := .tRightDelimEnd) (by omega) hs5 rfl
+    have hfr06 := ((((hfr1.trans hfr2).trans hfr3).trans hfr4).trans hfr5).trans hfr6
+    obtain ⟨st7, hl7, hs7, hp7, hfr7⟩ := ih (qp + (paramTag p.1 p.2).src.length) (f + 1)
+      (params.append (.cons (.paramValue (qp + 1) p.1 (exprOf (qp + 9 + p.1.length + p.2.elem.src.length) p.2)) .nil))
+      st6 rest hok.2 (Fr.clean hfr06 hin) (by omega) hs6 (by omega)
+    refine ⟨st7, ?_, ?_, hp7, hfr06.trans hfr7⟩
+    · show callParamsLoop pf (ef + 4) ((f + 1) + 1) params st = _
+      unfold callParamsLoop
+      rw [fbind_run, hn1]
+      simp only
+      rw [fbind_run, orphanLoop_id pf (ef + 4) f _ st1 (by simp)]
+      simp only [show (ItemType.tLeftDelim != ItemType.tLeftDelim) = false by decide, Bool.false_eq_true, if_false]
+      rw [fbind_run, hn2]
+      simp only [show (ItemType.tParam == ItemType.tCallEnd) = false by decide,
+        show (ItemType.tParam != ItemType.tParam) = false by decide, Bool.false_eq_true, if_false]
+      rw [fbind_run, he3]
+      simp only
+      rw [fbind_run, hn4]
+      simp only [beq_self_eq_true, if_true]
+      rw [fbind_run, hx5]
+      simp only
+      rw [fbind_run, he6]
+      simp only
+      rw [hl7]
+      simp only [paramNodes, nl_append_assoc, NodeList.append]
+    · rw [hs7, lenS_params_cons, Nat.add_assoc]
+
+theorem cmd_call (ef : Nat) (name : Bytes) (ps : List (Bytes × SExp)) (hps : paramsOK ps) : CmdSpec pf ef (.call name ps) := by
+  intro q t fuel st rest hin hpc hs hf
+  have hit : itemsSegs q (segsCmd t (.call name ps)) = textItem t (q + t.length) ++ ((callTag name).items (q + t.length) ++
+      itemsSegs (q + t.length + (callTag name).src.length) (segsParams ps ++ [([], .close kCall)])) := by
+    simp only [segsCmd, itemsSegs, List.append_assoc]
+  rw [hit, (callTag_items name (q + t.length)).1] at hs hf
+  simp only [List.cons_append, List.nil_append] at hs hf
+  rw [drop_len_succ] at hs
+  simp only [List.length_append, List.length_cons] at hf
+  obtain ⟨f, rfl⟩ : ∃ f, fuel = f + 3 := ⟨fuel - 3, by omega⟩
+  obtain ⟨st1, hn1, hs1, ht1, hp1, hfr1⟩ := fnext_stream' hpc hs
+  obtain ⟨st2, hh2, hs2, hp2, hfr2⟩ := parseCallHead_plain pf f name _ _ _ st1 (Fr.clean hfr1 hin) (by omega) hs1 (Or.inl rfl)
+  obtain ⟨st3, hn3, hs3, ht3, hp3, hfr3⟩ := fnext_stream' (st := st2) (by omega) hs2
+  have hfr03 := (hfr1.trans hfr2).trans hfr3
+  obtain ⟨st4, hl4, hs4, hp4, hfr4⟩ := params_spec pf ef ps (q + t.length + (callTag name).src.length) (f + 1) .nil st3 rest
+    hps (Fr.clean hfr03 hin) (by omega) hs3 (by omega)
+  rw [(closeCall_items _).1] at hs4
+  simp only [List.cons_append, List.nil_append] at hs4
+  obtain ⟨st5, he5, hs5, ht5, hp5, hfr5⟩ := fexpect_stream' (st := st4) (t := .tLeftDelim) hp4 hs4 rfl
+  obtain ⟨st6, he6, hs6, ht6, hp6, hfr6⟩ := fexpect_stream' (st := st5) (t := .tCallEnd) (by omega) hs5 rfl
+  obtain ⟨st7, he7, hs7, ht7, hp7, hfr7⟩ := fexpect_stream' (st := st6) (t := .tRightDelim) (by omega) hs6 rfl
+  refine ⟨st7, ?_, hs7, by omega, (((hfr03.trans hfr4).trans hfr5).trans hfr6).trans hfr7⟩
+  show beginTag pf (ef + 4) ((f + 2) + 1) st = _
+  unfold beginTag
+  rw [fbind_run, hn1]
+  simp only
+  rw [fbind_run]
+  have hpc' : parseCall pf (ef + 4) (f + 2) ⟨.tCall, q + t.length + 5, kCall⟩ st1 =
+      .ok (nodeCmd q t (.call name ps), st7) := by
+    show parseCall pf (ef + 4) ((f + 1) + 1) _ st1 = _
+    unfold parseCall
+    rw [fbind_run, hh2]
+    simp only
+    rw [fbind_run, hn3]
+    simp only [show (ItemType.tRightDelim == ItemType.tRightDelimEnd) = false by decide, beq_self_eq_true,
+      Bool.false_eq_true, if_false, if_true]
+    rw [fbind_run, hl4]
+    simp only
+    rw [fbind_run, he5]
+    simp only
+    rw [fbind_run, he6]
+    simp only
+    rw [fbind_run, he7]
+    simp only [nodeCmd, NodeList.append]
+    rfl
+  rw [hpc']
+  rfl
+
 /-! ## the mutual induction over the tree -/
 
 mutual
@@ -2986,6 +3333,8 @@ mutual
     | .letv x e, h => cmd_letv pf ef x e h.2
     | .letc x b, h => cmd_letc pf ef x b (spec_blk ef b h.2)
     | .switch e cs, h => cmd_switch pf ef e cs h.1 (spec_cases ef cs h.2)
+    | .call name ps, h => cmd_call pf ef name ps h.2
+    | .callSelf name, _ => cmd_callSelf pf ef name
   theorem spec_blk (ef : Nat) : ∀ (b : Blk), wfBlk b → BlkSpec pf ef b
     | .done t, _ => blk_done pf ef t
     | .cons t c r, h => blk_cons pf ef t c r (spec_cmd ef c h.2.1) (spec_blk ef r h.2.2)
@@ -3018,7 +3367,7 @@ theorem block_source_spec (pf : Bytes → Option UInt64) (b : Blk) (h : wfBlk b)
     simp only [exprFuel, Parser.fuelFor]
   obtain ⟨st', hl, _, _, _⟩ := spec_blk pf (8 * (itemsOf b).length + 60) b h .eof [.tEOF] 0
     (FileParser.fuelFor (itemsOf b).length) none .nil { p := initState (itemsOf b) } []
-    (by show List.contains _ _ = true; decide) (by decide) rfl (by simp [initState])
+    (by show List.contains _ _ = true; decide) (by decide) ⟨rfl, rfl⟩ (by simp [initState])
     (by simp [stream, pending, initState, itemsOf])
     (by simp only [FileParser.fuelFor, itemsOf]; omega)
   rw [hef, hl]
@@ -3153,5 +3502,40 @@ theorem exSwitch_spec (pf : Bytes → Option UInt64) :
     srcEs, Elem.src, SExp.elem, closeBytes, ifTag, switchTag, caseTag, defaultTag, printTag, Tag.items, itemsEs,
     Elem.items, NodeList.append, NodeList.toList, kIf, kSwitch, kCase, kDefault,
     d1, d2, d3, d4, d5, d6, j1, j2, j3, j4, j6]
+
+
+/-- `{call .t}{param k: $v /}{param n: 3 /}{/call}x{call .u /}` -/
+def exCall : Blk :=
+  .cons [] (.call [116] [([107], .var [118]), ([110], .int [51])])
+  (.cons [120] (.callSelf [117]) (.done []))
+
+theorem exCall_wf : wfBlk exCall := by
+  simp only [exCall, wfBlk, wfCmd, paramsOK, SExp.ok]
+  decide
+
+theorem exCall_src : srcOf exCall =
+    [123, 99, 97, 108, 108, 32, 46, 116, 125, 123, 112, 97, 114, 97, 109, 32, 107, 58, 32, 36, 118, 32, 47, 125, 123, 112,
+     97, 114, 97, 109, 32, 110, 58, 32, 51, 32, 47, 125, 123, 47, 99, 97, 108, 108, 125, 120, 123, 99, 97, 108, 108, 32, 46,
+     117, 32, 47, 125] := by rfl
+
+/-- accepted, with exactly this tree (as the real parser: `build/vh worker`, op `parsesrc`) -/
+theorem exCall_spec (pf : Bytes → Option UInt64) :
+    parseSource pf
+      [123, 99, 97, 108, 108, 32, 46, 116, 125, 123, 112, 97, 114, 97, 109, 32, 107, 58, 32, 36, 118, 32, 47, 125, 123, 112,
+       97, 114, 97, 109, 32, 110, 58, 32, 51, 32, 47, 125, 123, 47, 99, 97, 108, 108, 125, 120, 123, 99, 97, 108, 108, 32, 46,
+       117, 32, 47, 125] =
+    .ok [.call 5 [46, 116] false none
+        (.cons (.paramValue 10 [107] (.dataRef 21 [118] .nil)) (.cons (.paramValue 25 [110] (.int 35 3)) .nil)),
+      .rawText 46 [120],
+      .call 51 [46, 117] false none .nil] := by
+  have h := (block_source_spec pf exCall exCall_wf).2
+  rw [exCall_src] at h
+  rw [h]
+  have d1 : dropped [120] = false := by
+    simp [dropped, allSpaceWithNewline, allSpaceLoop, decodeRune, byteAt, Lex.isSpaceEOL, Lex.isSpace, Lex.isEndOfLine]
+  have j1 : joinLines [120] false false = [120] := by rfl
+  simp [nodesOf, exCall, nodesBlk, nodeCmd, paramNodes, textNL, exprOf, natVal, lenS, srcSegs, segsCmd, segsParams,
+    Tag.src, srcEs, Elem.src, SExp.elem, closeBytes, callTag, callSelfTag, paramTag, NodeList.append, NodeList.toList,
+    kCall, kParam, d1, j1]
 
 end SoyVerif.Props.C05c
